@@ -1,15 +1,10 @@
-use quote::ToTokens;
 use syn::{spanned::Spanned, Meta};
 
 #[inline]
 pub(crate) fn union_without_unsafe(meta: &Meta) -> syn::Error {
-    let mut s = meta.into_token_stream().to_string();
-
-    match s.len() {
-        9 => s.push_str("(unsafe)"),
-        11 => s.insert_str(10, "unsafe"),
-        _ => unreachable!(),
-    }
+    // Only `PartialEq`, `PartialEq()` and their odd spellings (`PartialEq{}`, `PartialEq ()`, ...) get here: any parameter
+    // other than `unsafe` has been refused before. The hint is therefore always the same.
+    let s = "PartialEq(unsafe)";
 
     syn::Error::new(
         meta.span(),
